@@ -24,8 +24,8 @@ class SdoServer(SdoBase):
         self._node = node
         self._buffer = None
         self._toggle = 0
-        self._index = None
-        self._subindex = None
+        self._index = 0
+        self._subindex = 0
         self.last_received_error = 0x00000000
 
     def on_request(self, can_id, data, timestamp):
@@ -122,6 +122,11 @@ class SdoServer(SdoBase):
     def block_download(self, data):
         # We currently don't support BLOCK DOWNLOAD
         logger.error("Block download is not supported")
+        command, index, subindex = SDO_STRUCT.unpack_from(data)
+        if command & 0x1 == INITIATE_BLOCK_TRANSFER:
+            # The initiate request names the object the abort refers to
+            self._index = index
+            self._subindex = subindex
         self.abort(0x05040001)
 
     def init_download(self, request):
